@@ -234,8 +234,12 @@ func (ch *Chain) hookBytes(h M) []byte {
 		for _, m := range absx.List(h["msgs"]) {
 			mm := absx.Map(m)
 			if absx.Str(mm["kind"]) == "deposit" {
-				msgs = append(msgs, &opchildtypes.MsgFinalizeTokenDeposit{Sender: c.Addr(name), From: c.Addr(absx.Str(mm["from"])), To: c.Addr(absx.Str(mm["to"])),
-					Amount: coin(c, absx.Str(mm["denom"]), absx.Int(mm["amt"])), Sequence: uint64(absx.Int(mm["seq"])), Height: uint64(absx.Int(mm["height"])), BaseDenom: c.Denom(absx.Str(mm["base"]))})
+				dm := &opchildtypes.MsgFinalizeTokenDeposit{Sender: c.Addr(name), From: c.Addr(absx.Str(mm["from"])), To: c.Addr(absx.Str(mm["to"])),
+					Amount: coin(c, absx.Str(mm["denom"]), absx.Int(mm["amt"])), Sequence: uint64(absx.Int(mm["seq"])), Height: uint64(absx.Int(mm["height"])), BaseDenom: c.Denom(absx.Str(mm["base"]))}
+				if hk, ok := mm["hook"]; ok { // a hook inside the hook
+					dm.Data = ch.hookBytes(absx.Map(hk))
+				}
+				msgs = append(msgs, dm)
 				continue
 			}
 			if absx.Str(mm["kind"]) == "withdraw" {
